@@ -336,6 +336,13 @@ def check_cfg(ctx, fx, cfg):
     if cfg != "bare":
         from props import c17 as _c17
         _c17.check_join(ctx, fx, cfg, "R15.6")
+    # R15.9 (shared with C06 / C10) "its timers keep firing" across a self-restart: a timer future is made abortable on its own and its
+    # handle recorded in the context's list, which the restart drains — no shared cancellation state survives into the next incarnation
+    if cfg != "bare":
+        from props import c06 as _c06
+        import timers as _timers
+        for r_ in [x for x in _timers.registrars(fx) if x.startswith("context::")]:
+            core.shared(ctx, "R15.9", _c06.check_registrar, ctx, fx, fx.fn(r_), cfg)
     # R15.8 (shared with C13) "stop from the actor's own context succeeds, its timers keep firing" also for an actor attached to a
     # stream that is always ready: the stream loop's select is fair, or polls the mailbox first
     if cfg != "bare":
